@@ -27,8 +27,8 @@ func lowerFirst(s string) string {
 }
 
 func rootElemIsInterface(t reflect.Type) bool {
-	for t.Kind() == reflect.Slice || t.Kind() == reflect.Array || t.Kind() == reflect.Ptr {
-		t = t.Elem()
+	for n := 0; n < 64 && (t.Kind() == reflect.Slice || t.Kind() == reflect.Array || t.Kind() == reflect.Ptr); n++ {
+		t = t.Elem() // bounded: a self-referential list type (type T []T) has no root element
 	}
 	return t.Kind() == reflect.Interface
 }
